@@ -20,6 +20,8 @@ CHECKS={
         "module requires are exercised by C14; references inside one evaluation follow the generator's ordering rule (DESIGN.md §5 C06)","DESIGN.md §5 C06"),
  'C07':("fault_enumeration","enumeration of fault points over a corpus of 26 programs (plain code, argument position, let bodies, map/fold/transduce/sort/for-each callbacks, dynamic-wind, handlers, escaping and re-entered continuations, apply, macro use, deep recursion, mutable state, parameterize, host calls in each of these contexts) in both tiers: an interrupt raised at every dispatch step, a host-function error at every host call, a compile-time and a run-time failing form at every form position; each run continues with 0-3 further faulted evaluations on the same engine; after every evaluation: it returned (panic/crash = violation), stacks empty, probe program and earlier definitions and mutable state intact, clean re-run gives the program's value",
         "decides the second sentence of C07 and the fault-history part of its quantifier; arbitrary source text and arbitrary built-in argument tuples are pure functions of the input and are not decided here (DESIGN.md §5 C07)","DESIGN.md §5 C07"),
+ 'C19':("exploration","seeded search over allocation histories with a bounded live set: 2-30 blocks of garbage (acyclic, self-cycles, rings of 2-9 boxes, rings through box/vector/struct field, self-capturing closures, storage held only by a dead continuation, a finished handler or shadowed globals), live-set changes and weak boxes, forced collections at rate {0,1/64,1/8}, heap growth chunk and recycling threshold randomised, JIT on/off; after every block and two full collections at a quiescent point: live slots <= warm-up baseline + model live set + a constant slack (24 slots; a leak grows by >= 40 slots per batch), free-slot accounting == mark bits, live data reads back, weak boxes of dropped targets are cleared",
+        "bounded-residue oracle (a few slots may stay referenced from stale temporaries); single script thread; storage held only by shadowed globals is expected back once the recycling threshold has been passed","DESIGN.md §5 C19"),
  'C04':("exploration","seeded search over collection schedules (a full collection forced at PRNG-chosen allocations, up to every allocation, plus explicit requests) for generated programs that park the only reference to boxes / mutable vectors / mutable struct fields / assigned captured variables in one of 23 root classes, churn the allocator and read back; oracle = generator-known contents + stale-slot monitor + free-slot accounting; JIT on/off and heap growth chunk are swarm dimensions",
         "collections are forced only where the runtime itself may collect; one script thread (threaded roots are exercised in the C15/C16 runs); the marker pool's internal races are not scheduled","DESIGN.md §5 C04"),
 }
